@@ -1,1 +1,204 @@
-From RC Require Import SafeFinalProps.
+(** C08 - "Weak: [upgrade] returns Some exactly when the target is still alive (allocated, value
+    live, not being destroyed or collected); a Weak created by [Weak::new] never upgrades".
+    Statements only; every proof is [exact <lemma>] (SafeProps.v, SafeFinalPropsA.v,
+    SafeFinalProps.v).
+    - Safety half (proved): a non-zero [Weak::strong_count], hence a successful upgrade, implies
+      that the target is allocated, live, outside the dying set and not marked dropped; dead
+      targets (all the ways of being dead) report 0 and the upgrade returns None; so does a
+      [Weak::new()] handle.  State-level over part A's invariant [SInv K b E W m], every [K].
+    - The converse ("alive => Some") is FALSE in the crate and in the model: finding F4, exhibited
+      below by computation ([C08_refuted_F4], [C08_refuted_F4_corpus]). *)
+From Coq Require Import NArith Bool List Lia.
+From stdpp Require Import base list option.
+From RecordUpdate Require Import RecordSet.
+From RC Require Import Hdr Machine RunInd Inv InvP SafeMain SafeProps Pass PassMain SafeFinalPropsA SafeFinalProps.
+Import ListNotations RecordSetNotations.
+Local Open Scope N_scope.
+
+(** a Weak handle that exists and reports a non-zero strong count points to an allocated box
+    whose value is live, outside the dying set, not marked dropped; the count reported is the real
+    one (the state is unchanged: nothing is logged) *)
+Theorem C08_upgrade_safe :
+  forall (K : conf) (b : bool) (E : list id) (W : list wref) (m : machine) (o : id) (sc : N),
+  SInv K b E W m -> k_weak K = true -> (0 < wrefs m o + cnt_wr o W)%nat ->
+  weak_strong_count (WTo o) m = (m, sc) -> sc <> 0 ->
+  exists x : obj, get m o = Some x /\ o_box x = BAlloc /\ o_vst x = VLive /\ mem_id o (dead m) = false /\
+                  is_dropped (o_hdr x) = false /\ h_rc (o_hdr x) = sc.
+Proof. exact SafeProps.upgrade_safe. Qed.
+Print Assumptions C08_upgrade_safe.
+
+(** [Weak::new()]: strong count 0 *)
+Theorem C08_weak_new_count_zero :
+  forall m : machine, weak_strong_count WNull m = (m, 0).
+Proof. exact SafeFinalPropsA.weak_null_count. Qed.
+Print Assumptions C08_weak_new_count_zero.
+
+(** [Weak::new()] never upgrades ([rec] arbitrary, no invariant) *)
+Theorem C08_weak_new_never_upgrades :
+  forall (K : conf) (rec : call -> machine -> machine * outcome) (self : option id) (w : wloc) (dst : loc)
+         (m : machine) (rw : rwloc) (rd : rloc),
+  k_weak K = true -> wresolve self w m = (m, Some rw) -> resolve self dst m = (m, Some rd) ->
+  read_wloc rw m = Some WNull ->
+  cmd_upgrade K rec self w dst m = ok m RNone.
+Proof. exact SafeFinalPropsA.weak_new_never_upgrades. Qed.
+Print Assumptions C08_weak_new_never_upgrades.
+
+(** a Weak whose target's value is being destroyed, was destroyed, was moved out, is under
+    construction, whose box was freed, which belongs to the dying set, is marked dropped or has
+    strong count 0 reports strong count 0; nothing is logged *)
+Theorem C08_dead_never_upgrades :
+  forall (K : conf) (b : bool) (E : list id) (W : list wref) (m : machine) (o : id) (x : obj),
+  SInv K b E W m -> k_weak K = true -> (0 < wrefs m o + cnt_wr o W)%nat -> get m o = Some x ->
+  (o_vst x = VDropping \/ o_vst x = VDropped \/ o_vst x = VMoved \/ o_vst x = VUninit \/ o_box x = BFreed \/
+   o_box x = BNotYet \/ mem_id o (dead m) = true \/ is_dropped (o_hdr x) = true \/ h_rc (o_hdr x) = 0) ->
+  weak_strong_count (WTo o) m = (m, 0).
+Proof. exact SafeFinalProps.dead_never_upgrades. Qed.
+Print Assumptions C08_dead_never_upgrades.
+
+(** ... and [Weak::upgrade] returns None, changing nothing *)
+Theorem C08_dead_upgrade_none :
+  forall (K : conf) (rec : call -> machine -> machine * outcome) (b : bool) (E : list id) (m : machine)
+         (self : option id) (w : wloc) (dst : loc) (rw : rwloc) (rd : rloc) (o : id) (x : obj),
+  SInv K b E [] m -> k_weak K = true ->
+  wresolve self w m = (m, Some rw) -> resolve self dst m = (m, Some rd) -> read_wloc rw m = Some (WTo o) ->
+  (0 < wrefs m o)%nat -> get m o = Some x ->
+  (o_vst x = VDropping \/ o_vst x = VDropped \/ o_vst x = VMoved \/ o_vst x = VUninit \/ o_box x = BFreed \/
+   o_box x = BNotYet \/ mem_id o (dead m) = true \/ is_dropped (o_hdr x) = true \/ h_rc (o_hdr x) = 0) ->
+  cmd_upgrade K rec self w dst m = ok m RNone.
+Proof. exact SafeFinalProps.dead_upgrade_none. Qed.
+Print Assumptions C08_dead_upgrade_none.
+
+(** ** Finding F4: the converse fails.  Objects 0 (class 1, finalizer = script 0) and 1 (class 2)
+    form a cycle; object 2 (class 3, Drop = script 1, one Weak field pointing to object 1) is
+    owned by the untraced field 1 of object 0.  The collection finds the garbage cycle {0,1} and
+    runs the finalizer of 0, which drops object 2 by a plain [Cc::drop]; that sets [dropping];
+    the Drop impl of object 2 upgrades its Weak to object 1, which is alive but linked in the
+    collector's list: [Weak::strong_count] returns 0 and the upgrade returns None. *)
+
+(** the corpus program /verif/corpus/f4_upgrade_none_in_finalize_pass.prog plus one command: the
+    finalizer of object 0 afterwards clones its handle to object 1 into slot 4.  Final state: well-
+    formed program, no misbehaviour, invariant and exact counts hold; the log has [ERes RNone] (the
+    upgrade's result) immediately after the entry of object 2's Drop; object 1 is allocated, live,
+    count 2, not dying, held by slot 4, and no destructor entry / free of object 1 was ever logged:
+    it was alive when the upgrade returned None *)
+Theorem C08_refuted_F4 :
+  exists (K : conf) (fuel : nat),
+    let prog := Prog [Cls 2 [true; true] 1 false None None;
+                 Cls 2 [true; false] 0 false (Some 0%nat) None;
+                 Cls 1 [true] 0 false None None;
+                 Cls 0 [] 1 false None (Some 1%nat)]
+                [[CDrop (LFS 1); CClone (LFS 0) (LS 4)]; [CUpgrade (WFS 0) (LS 5); CDrop (LS 5)]]
+                [CCfgAuto false; CNew (LS 0) 1; CNew (LS 1) 2; CNew (LS 2) 3; CClone (LS 1) (LFA 0 0);
+                 CClone (LS 0) (LFA 1 0); CDowngrade (LS 1) (WFA 2 0); CMove (LS 2) (LFA 0 1);
+                 CDrop (LS 0); CDrop (LS 1); CCollect; CSObs] in
+    let m := run_main K prog fuel (init K) in
+    wf_prog prog = true /\ no_bad m = true /\ inv_b K [] m = true /\ exact_b [] m = true /\
+    (exists (l1 l2 : list event) (f : flags), log m = l1 ++ ERes RNone :: ECb KDrop 2 f :: l2 /\ fl_d f = true) /\
+    forallb (fun e : event => match e with
+                              | ECb KDrop o' _ => negb (Nat.eqb o' 1%nat)
+                              | EFree o' _ _ | ESFree o' => negb (Nat.eqb o' 1%nat)
+                              | _ => true end) (log m) = true /\
+    (exists x : obj, get m 1%nat = Some x /\ o_box x = BAlloc /\ o_vst x = VLive /\ h_rc (o_hdr x) = 2 /\
+               is_dropped (o_hdr x) = false /\ mem_id 1%nat (dead m) = false) /\
+    slots m !! 4%nat = Some (Some 1%nat) /\
+    (exists y : obj, get m 2%nat = Some y /\ o_cls y = 3%nat /\ o_vst y = VDropped).
+Proof. exact SafeFinalPropsA.F4_upgrade_none_target_alive. Qed.
+Print Assumptions C08_refuted_F4.
+
+(** the corpus program itself (first program of the file).  Object 1 is collected by the NEXT
+    iteration of the collection loop, so the final state does not show it; the order of the log
+    does: before the upgrade returned None ([l2]) object 1 and its side record had been allocated,
+    its destructor had not been entered and nothing of it had been freed; afterwards ([l1]) the
+    collector still ran object 1's finalizer and only later destroyed it *)
+Theorem C08_refuted_F4_corpus :
+  exists (K : conf) (fuel : nat),
+    let prog := Prog [Cls 2 [true; true] 1 false None None;
+                 Cls 2 [true; false] 0 false (Some 0%nat) None;
+                 Cls 1 [true] 0 false None None;
+                 Cls 0 [] 1 false None (Some 1%nat)]
+                [[CDrop (LFS 1)]; [CUpgrade (WFS 0) (LS 5); CDrop (LS 5)]]
+                [CCfgAuto false; CNew (LS 0) 1; CNew (LS 1) 2; CNew (LS 2) 3; CClone (LS 1) (LFA 0 0);
+                 CClone (LS 0) (LFA 1 0); CDowngrade (LS 1) (WFA 2 0); CMove (LS 2) (LFA 0 1);
+                 CDrop (LS 0); CDrop (LS 1); CCollect; CSObs] in
+    let m := run_main K prog fuel (init K) in
+    wf_prog prog = true /\ no_bad m = true /\ inv_b K [] m = true /\
+    exists (l1 l2 : list event) (f : flags), log m = l1 ++ ERes RNone :: ECb KDrop 2 f :: l2 /\
+      In (EAlloc 1%nat (k_nsize K) (k_nalign K)) l2 /\ In (ESAlloc 1%nat) l2 /\
+      forallb (fun e : event => match e with
+                              | ECb KDrop o' _ => negb (Nat.eqb o' 1%nat)
+                              | EFree o' _ _ | ESFree o' => negb (Nat.eqb o' 1%nat)
+                              | _ => true end) l2 = true /\
+      (exists f1 : flags, In (ECb KFin 1 f1) l1) /\ (exists f2 : flags, In (ECb KDrop 1 f2) l1).
+Proof. exact SafeFinalPropsA.F4_corpus. Qed.
+Print Assumptions C08_refuted_F4_corpus.
+
+(** ** Pins *)
+Check C08_upgrade_safe :
+  forall (K : conf) (b : bool) (E : list id) (W : list wref) (m : machine) (o : id) (sc : N),
+  SInv K b E W m -> k_weak K = true -> (0 < wrefs m o + cnt_wr o W)%nat ->
+  weak_strong_count (WTo o) m = (m, sc) -> sc <> 0 ->
+  exists x : obj, get m o = Some x /\ o_box x = BAlloc /\ o_vst x = VLive /\ mem_id o (dead m) = false /\
+                  is_dropped (o_hdr x) = false /\ h_rc (o_hdr x) = sc.
+Check C08_weak_new_count_zero :
+  forall m : machine, weak_strong_count WNull m = (m, 0).
+Check C08_weak_new_never_upgrades :
+  forall (K : conf) (rec : call -> machine -> machine * outcome) (self : option id) (w : wloc) (dst : loc)
+         (m : machine) (rw : rwloc) (rd : rloc),
+  k_weak K = true -> wresolve self w m = (m, Some rw) -> resolve self dst m = (m, Some rd) ->
+  read_wloc rw m = Some WNull ->
+  cmd_upgrade K rec self w dst m = ok m RNone.
+Check C08_dead_never_upgrades :
+  forall (K : conf) (b : bool) (E : list id) (W : list wref) (m : machine) (o : id) (x : obj),
+  SInv K b E W m -> k_weak K = true -> (0 < wrefs m o + cnt_wr o W)%nat -> get m o = Some x ->
+  (o_vst x = VDropping \/ o_vst x = VDropped \/ o_vst x = VMoved \/ o_vst x = VUninit \/ o_box x = BFreed \/
+   o_box x = BNotYet \/ mem_id o (dead m) = true \/ is_dropped (o_hdr x) = true \/ h_rc (o_hdr x) = 0) ->
+  weak_strong_count (WTo o) m = (m, 0).
+Check C08_dead_upgrade_none :
+  forall (K : conf) (rec : call -> machine -> machine * outcome) (b : bool) (E : list id) (m : machine)
+         (self : option id) (w : wloc) (dst : loc) (rw : rwloc) (rd : rloc) (o : id) (x : obj),
+  SInv K b E [] m -> k_weak K = true ->
+  wresolve self w m = (m, Some rw) -> resolve self dst m = (m, Some rd) -> read_wloc rw m = Some (WTo o) ->
+  (0 < wrefs m o)%nat -> get m o = Some x ->
+  (o_vst x = VDropping \/ o_vst x = VDropped \/ o_vst x = VMoved \/ o_vst x = VUninit \/ o_box x = BFreed \/
+   o_box x = BNotYet \/ mem_id o (dead m) = true \/ is_dropped (o_hdr x) = true \/ h_rc (o_hdr x) = 0) ->
+  cmd_upgrade K rec self w dst m = ok m RNone.
+Check C08_refuted_F4 :
+  exists (K : conf) (fuel : nat),
+    let prog := Prog [Cls 2 [true; true] 1 false None None;
+                 Cls 2 [true; false] 0 false (Some 0%nat) None;
+                 Cls 1 [true] 0 false None None;
+                 Cls 0 [] 1 false None (Some 1%nat)]
+                [[CDrop (LFS 1); CClone (LFS 0) (LS 4)]; [CUpgrade (WFS 0) (LS 5); CDrop (LS 5)]]
+                [CCfgAuto false; CNew (LS 0) 1; CNew (LS 1) 2; CNew (LS 2) 3; CClone (LS 1) (LFA 0 0);
+                 CClone (LS 0) (LFA 1 0); CDowngrade (LS 1) (WFA 2 0); CMove (LS 2) (LFA 0 1);
+                 CDrop (LS 0); CDrop (LS 1); CCollect; CSObs] in
+    let m := run_main K prog fuel (init K) in
+    wf_prog prog = true /\ no_bad m = true /\ inv_b K [] m = true /\ exact_b [] m = true /\
+    (exists (l1 l2 : list event) (f : flags), log m = l1 ++ ERes RNone :: ECb KDrop 2 f :: l2 /\ fl_d f = true) /\
+    forallb (fun e : event => match e with
+                              | ECb KDrop o' _ => negb (Nat.eqb o' 1%nat)
+                              | EFree o' _ _ | ESFree o' => negb (Nat.eqb o' 1%nat)
+                              | _ => true end) (log m) = true /\
+    (exists x : obj, get m 1%nat = Some x /\ o_box x = BAlloc /\ o_vst x = VLive /\ h_rc (o_hdr x) = 2 /\
+               is_dropped (o_hdr x) = false /\ mem_id 1%nat (dead m) = false) /\
+    slots m !! 4%nat = Some (Some 1%nat) /\
+    (exists y : obj, get m 2%nat = Some y /\ o_cls y = 3%nat /\ o_vst y = VDropped).
+Check C08_refuted_F4_corpus :
+  exists (K : conf) (fuel : nat),
+    let prog := Prog [Cls 2 [true; true] 1 false None None;
+                 Cls 2 [true; false] 0 false (Some 0%nat) None;
+                 Cls 1 [true] 0 false None None;
+                 Cls 0 [] 1 false None (Some 1%nat)]
+                [[CDrop (LFS 1)]; [CUpgrade (WFS 0) (LS 5); CDrop (LS 5)]]
+                [CCfgAuto false; CNew (LS 0) 1; CNew (LS 1) 2; CNew (LS 2) 3; CClone (LS 1) (LFA 0 0);
+                 CClone (LS 0) (LFA 1 0); CDowngrade (LS 1) (WFA 2 0); CMove (LS 2) (LFA 0 1);
+                 CDrop (LS 0); CDrop (LS 1); CCollect; CSObs] in
+    let m := run_main K prog fuel (init K) in
+    wf_prog prog = true /\ no_bad m = true /\ inv_b K [] m = true /\
+    exists (l1 l2 : list event) (f : flags), log m = l1 ++ ERes RNone :: ECb KDrop 2 f :: l2 /\
+      In (EAlloc 1%nat (k_nsize K) (k_nalign K)) l2 /\ In (ESAlloc 1%nat) l2 /\
+      forallb (fun e : event => match e with
+                              | ECb KDrop o' _ => negb (Nat.eqb o' 1%nat)
+                              | EFree o' _ _ | ESFree o' => negb (Nat.eqb o' 1%nat)
+                              | _ => true end) l2 = true /\
+      (exists f1 : flags, In (ECb KFin 1 f1) l1) /\ (exists f2 : flags, In (ECb KDrop 1 f2) l1).
